@@ -1343,6 +1343,11 @@ class AnyPayloadDecoder(AbstractSimplePayloadDecoder):
             if LOG:
                 LOG('decoding as untagged ANY, header substrate %s' % debug.hexdump(chunk))
 
+        # being a fragment of an enclosing ANY?
+        isFragment = substrateFun is self.substrateCollector
+
+        anySpec = asn1Spec
+
         # Any components do not inherit initial tag
         asn1Spec = self.protoComponent
 
@@ -1379,11 +1384,15 @@ class AnyPayloadDecoder(AbstractSimplePayloadDecoder):
 
             chunk += component
 
-        if substrateFun:
-            yield chunk  # TODO: Weird
+        if not isTagged:
+            # the end-of-octets is part of the encoding being captured
+            chunk += EOO_SENTINEL
+
+        if isFragment:
+            yield chunk
 
         else:
-            yield self._createComponent(asn1Spec, tagSet, chunk, **options)
+            yield self._createComponent(anySpec, tagSet, chunk, **options)
 
 
 # character string types
